@@ -73,7 +73,8 @@ HazeFails(e) ==
              \cup (IF \A w \in 1..nw : \A k \in ins : Near(e.ms[w][k], e.S) THEN {} ELSE {"declared_magnitude_inside"})
              \cup (IF \A w \in 1..nw : \A k \in (1..n) \ (ins \cup outs) : e.ms[w][k] <= e.S + 1
                    THEN {} ELSE {"partial_within_interval"})
-             \cup (IF \A w \in 1..nw : \A k \in part : rule(k, e.ms[w][k]) THEN {} ELSE {"partial_layer_rule"})
+             \* (judged at the first logged wavenumber: declared_wavelength_law ties the others to it within one unit)
+             \cup (IF \A k \in part : rule(k, e.ms[1][k]) THEN {} ELSE {"partial_layer_rule"})
              \cup (IF (~e.b.set /\ ~e.t.set) => \A w \in 1..nw : \A k \in 1..n : Near(e.ms[w][k], e.S)
                    THEN {} ELSE {"unset_means_whole_atmosphere"})
              \cup (IF \A w \in 1..nw : \A k \in 1..n : Near(e.ms[w][k], e.ms[1][k]) THEN {} ELSE {"declared_wavelength_law"})
